@@ -1,14 +1,88 @@
 (* C15 — Byte order of a segment does not change its meaning.
    The codec layer: a field / value written in either byte order decodes to the
-   same thing.  (The composition with the whole reader follows C01's chain and
-   is partial to the same extent.) *)
+   same thing, and the raw data decoders return the same values from the
+   big-endian and the little-endian encoding of the same content (fixed-size
+   values of every type incl. complex and timestamps, strings, contiguous chunks,
+   interleaved rows).  (The composition with the whole reader follows C01's
+   chain and is PARTIAL to the same extent: see Props/C01.v.) *)
 From Coq Require Import List ZArith.
 Import ListNotations.
-From NpTdms Require Import Base.Bytes Base.Res Model.Tokens Model.SegState Model.Layout Model.Reader.
+From NpTdms Require Import Base.Bytes Base.Res Model.Tokens Model.SegState Model.Layout Model.Reader
+     Proofs.LayoutProofs.
 Local Open Scope Z_scope.
 
 Theorem field_endian_irrelevant : forall e e' n z,
     0 <= z < 256 ^ Z.of_nat n -> u_dec e (u_enc e n z) = u_dec e' (u_enc e' n z).
 Proof. exact u_dec_enc_any. Qed.
 
+(* value bytes: canonicalisation is an involution in either byte order, for
+   every type and length (complex: per component); little-endian is the identity *)
+Theorem canon_value_involutive : forall e ty v, canon_value e ty (canon_value e ty v) = v.
+Proof. exact LayoutProofs.canon_value_involutive. Qed.
+
+Theorem canon_value_length : forall e ty v, length (canon_value e ty v) = length v.
+Proof. exact LayoutProofs.canon_value_length. Qed.
+
+Theorem store_then_canon : forall e ty v, canon_value e ty (store_value e ty v) = v.
+Proof. exact LayoutProofs.store_then_canon. Qed.
+
+Theorem canon_value_LE : forall ty v, canon_value LE ty v = v.
+Proof. exact LayoutProofs.canon_value_LE. Qed.
+
+Theorem value_endian_irrelevant : forall e e' ty v,
+    canon_value e ty (store_value e ty v) = canon_value e' ty (store_value e' ty v).
+Proof. exact canon_store_any_endian. Qed.
+
+(* raw data: both encodings of the same values decode to the same result *)
+Theorem read_values_endian_irrelevant : forall e e' n o vs rest,
+    vals_ok n o vs ->
+    read_values e o n (enc_obj e o vs ++ rest) = read_values e' o n (enc_obj e' o vs ++ rest).
+Proof. exact read_values_any_endian. Qed.
+
+Theorem contig_chunk_endian_irrelevant : forall e e' ci nchunks final ovs rest,
+    Forall (fun ov => vals_ok (chunk_nvals (fst ov) ci nchunks final) (fst ov) (snd ov)) ovs ->
+    NoDup (map (fun ov => so_path (fst ov)) ovs) ->
+    read_contig_chunk e (map fst ovs) ci nchunks final (enc_chunk e ovs ++ rest) []
+    = read_contig_chunk e' (map fst ovs) ci nchunks final (enc_chunk e' ovs ++ rest) [].
+Proof. exact read_contig_chunk_any_endian. Qed.
+
+Theorem interleaved_endian_irrelevant : forall e e' objs nchunks nv rows rest,
+    objs <> [] ->
+    Forall (fun o => so_nvals o = nv) objs ->
+    Forall (fun o => sized o <> None) objs ->
+    NoDup (map so_path objs) ->
+    Forall (row_ok objs) rows ->
+    nv * nchunks = Z.of_nat (length rows) ->
+    read_interleaved e objs nchunks (enc_rows e objs rows ++ rest)
+    = read_interleaved e' objs nchunks (enc_rows e' objs rows ++ rest).
+Proof. exact read_interleaved_any_endian. Qed.
+
+Section Examples.
+Import String.
+Local Open Scope string_scope.
+Example c15_value_example :
+  canon_value BE T_C64 (hex "0102030405060708") = hex "0403020108070605" /\
+  canon_value BE T_C64 (canon_value BE T_C64 (hex "0102030405060708")) = hex "0102030405060708" /\
+  canon_value BE T_TIME (hex "000102030405060708090a0b0c0d0e0f") = hex "0f0e0d0c0b0a09080706050403020100".
+Proof. exact canon_value_c64_example. Qed.
+
+Example c15_strings_example :
+  let o := mkSobj (hex "2f27") true 3 0 (Some T_STRING) None in
+  let ss := [hex "616263"; []; hex "c3a9"] in
+  enc_strings BE ss = hex "000000030000000300000005616263c3a9" /\
+  enc_strings LE ss = hex "030000000300000005000000616263c3a9" /\
+  read_values BE o 3 (enc_strings BE ss ++ hex "77")%list = read_values LE o 3 (enc_strings LE ss ++ hex "77")%list.
+Proof. vm_compute. repeat split. Qed.
+End Examples.
+
 Print Assumptions field_endian_irrelevant.
+Print Assumptions canon_value_involutive.
+Print Assumptions canon_value_length.
+Print Assumptions store_then_canon.
+Print Assumptions canon_value_LE.
+Print Assumptions value_endian_irrelevant.
+Print Assumptions read_values_endian_irrelevant.
+Print Assumptions contig_chunk_endian_irrelevant.
+Print Assumptions interleaved_endian_irrelevant.
+Print Assumptions c15_value_example.
+Print Assumptions c15_strings_example.
